@@ -33,7 +33,7 @@ P = {
                   "parser establish; bliss contract for the fixed point.",
              tech="Lean 4 proof (decode∘encode, fixed point) + correspondence + round-trip probe"),
  "C04": dict(text="Proved about the model, for every oracle meeting the bliss contract: canonical graphs of two descriptions of one molecule have "
-             "labels 0…n-1, equal (element, mass, radical, class) per label and equal adjacency (C04_canonical_graph, C04_nodes_and_edges). "
+             "labels 0…n-1, equal (element, mass, radical, class) per label and equal adjacency (C04_canonical_graph, C04_nodes_and_edges), the class being set on every label (C04_classes_set). "
              "Probe: node maps and edge sets of the real canonical graphs; the contract is validated on every pair.",
              note="bliss contract validated per call/pair, not proved.",
              tech="Lean 4 proof (equivariance + bliss contract + relabelling) + correspondence + canonical-graph probe"),
@@ -98,7 +98,7 @@ P = {
              note="value semantics of the model is faithful only without aliasing, which the harness checks.",
              tech="Lean 4 proof (relabelling lemmas) + correspondence with argument post-states + renaming probe"),
  "C13": dict(text="Proved about the model, no oracle: classes are equivariant under relabelling in any listing (equal round counts), invariant under "
-             "automorphisms, the final partition is equitable and atoms of one class have the same element, mass and radical (C13_same_class_same_identity); every atom has a class and the canonical graph carries it (C13_classes_on_canonical_graph); rounds ≤ n+1. Probe: the three clauses "
+             "automorphisms, the final partition is equitable and atoms of one class have the same element, mass and radical (C13_same_class_same_identity); every atom has a class and the canonical graph carries it (C13_classes_on_canonical_graph); one more refinement step changes no class (C13_stable_under_refinement); rounds ≤ n+1. Probe: the three clauses "
              "on the real partition attribute.",
              note="", tech="Lean 4 proof (equivariance, equitability) + correspondence + partition probe"),
  "C14": dict(text="PARTIAL. Lean carries order-obliviousness of every sorted sequence and of the serializer, the canonical graph and the whole pipeline "
